@@ -76,6 +76,14 @@ WORKSPACES = {
         "src/m_hdr.F90": "#include \"defs.h\"\nmodule m_hdr\n implicit none\n real(WP) :: tol\nend module m_hdr\n",
         "src/u_hdr.f90": "program u_hdr\n use m_hdr\n implicit none\n tol = 1.0\nend program u_hdr\n",
     },
+    # a Fortran INCLUDE file whose name exists in three include directories and not next to the including file
+    "fortran_include_in_three_dirs": {
+        "__include_dirs__": ["fi1", "fi2", "fi3"],
+        "fi1/limits.f90": "integer, parameter :: max_iter = 50\n",
+        "fi2/limits.f90": "integer, parameter :: max_iter = 200\n",
+        "fi3/limits.f90": "integer, parameter :: max_iter = 300\n",
+        "fsrc/solve_it.f90": "subroutine solve_it()\n implicit none\n include 'limits.f90'\n integer :: k\n k = max_iter\nend subroutine solve_it\n",
+    },
     # two preprocessed files include the same header, which branches on a macro only one of them defines before the #include
     "shared_header": {
         "precision.h": "#ifdef SINGLE_PRECISION\n#define WP 4\n#else\n#define WP 8\n#define HAVE_QUAD 1\n#endif\n",
